@@ -3,7 +3,9 @@ package c06
 import (
 	"fmt"
 	"math"
+	"reflect"
 	"strings"
+	"unicode/utf16"
 
 	"github.com/robertkrimen/otto"
 
@@ -18,7 +20,89 @@ function __plus(s) { return +s; }
 function __parseFloat(s) { return parseFloat(s); }
 function __parseInt(s, r) { return parseInt(s, r); }
 function __parseInt1(s) { return parseInt(s); }
+function __minus0(s) { return s - 0; }
+function __times1(s) { return s * 1; }
+function __mk16() { return String.fromCharCode.apply(null, arguments); }
 `
+
+// strRep is one internal representation of an input string: otto holds a string
+// either as a Go string (literals, concatenation results, JSON.parse results, Go
+// strings handed in by the embedder) or as UTF-16 code units ([]uint16 - what
+// String.fromCharCode returns); ToNumber has a separate branch for each.
+type strRep struct {
+	tag string      // "" (Go string) or "@16" (UTF-16 backed)
+	val interface{} // argument handed to the prelude function
+	err string      // construction failed: rendered as the observation
+}
+
+func unitArgs(units []uint16) []interface{} {
+	args := make([]interface{}, len(units))
+	for i, u := range units {
+		args[i] = float64(u)
+	}
+	return args
+}
+
+// reps returns the representations a string is observed in. self-check: the
+// "@16" value must really be UTF-16 backed, otherwise the second representation
+// would silently test nothing.
+func reps(r *engine.Run, c *caller, s string, want16 bool) []strRep {
+	l := []strRep{{val: s}}
+	if want16 {
+		l = append(l, rep16(r, c, ox.Units(s)))
+	}
+	return l
+}
+
+func rep16(r *engine.Run, c *caller, units []uint16) strRep {
+	v, e := c.call("__mk16", unitArgs(units)...)
+	if e == "" && !isUTF16Backed(v) {
+		r.Note("String.fromCharCode no longer returns a UTF-16 backed value: the @16 representation equals the Go-string one")
+	}
+	return strRep{tag: "@16", val: v, err: e}
+}
+
+func isUTF16Backed(v otto.Value) bool {
+	rv := reflect.ValueOf(v).FieldByName("value")
+	if !rv.IsValid() || rv.Kind() != reflect.Interface || rv.IsNil() {
+		return false
+	}
+	e := rv.Elem()
+	return e.Kind() == reflect.Slice && e.Type().Elem().Kind() == reflect.Uint16
+}
+
+func renderArg(s string, rep strRep) string {
+	if rep.tag == "" {
+		return ox.JSLit(s)
+	}
+	var parts []string
+	for _, u := range ox.Units(s) {
+		parts = append(parts, fmt.Sprintf("0x%X", u))
+	}
+	return "String.fromCharCode(" + strings.Join(parts, ",") + ")"
+}
+
+// want16 decides which strings are also observed UTF-16 backed: everything but
+// the long tail of the exhaustive ASCII alphabet strings.
+func want16(key, s string, lim int) bool {
+	return !strings.HasPrefix(key, "L:") || len(s) <= lim
+}
+
+// lone surrogates exist only in the UTF-16 representation; the model sees them as
+// U+FFFD (neither white space nor part of a literal).
+var surrogateCases = [][]uint16{{0xD800}, {0xD800, '1'}, {'1', 0xDC00}, {0xA0, '1', 0xD800}, {0xDC00, 0xD800, '7'}, {'0', 'x', 0xD83D, 0xDE00}, {0xD83D, 0xDE00}, {' ', 0xDBFF, ' '}, {'1', 0xDFFF, '2'}}
+
+func unitsKey(units []uint16) string {
+	var sb strings.Builder
+	sb.WriteString("U:")
+	for i, u := range units {
+		if i > 0 {
+			sb.WriteByte('.')
+		}
+		fmt.Fprintf(&sb, "%04x", u)
+	}
+	return sb.String()
+}
 
 func expNum(v float64) string { return numStr(v, num.ToString(v)) }
 
@@ -36,6 +120,13 @@ func maxLen(r *engine.Run, quick, thorough int) int {
 	return quick
 }
 
+var toNumberForms = []struct{ name, fn, render string }{
+	{"Number", "__number", "Number(%s)"},
+	{"+", "__plus", "+(%s)"},
+	{"-0", "__minus0", "(%s) - 0"},
+	{"*1", "__times1", "(%s) * 1"},
+}
+
 func runToNumber(r *engine.Run) {
 	c, err := newCaller(parsePrelude)
 	if err != nil {
@@ -44,6 +135,45 @@ func runToNumber(r *engine.Run) {
 	}
 	st := &stopper{r: r}
 	n := 0
+	lim16 := maxLen(r, 4, 5)
+	one := func(key, s string, rl []strRep, forms int, exp string, v float64) {
+		for _, rep := range rl {
+			for _, form := range toNumberForms[:forms] {
+				obs := rep.err
+				if obs == "" {
+					r.Begin(key)
+					v1, e1 := c.call(form.fn, rep.val)
+					r.End()
+					obs = numObs(v1, e1)
+				}
+				r.Eval(!math.IsNaN(v))
+				r.Outcome(obs)
+				if obs == exp {
+					continue
+				}
+				if alt, ok := alt180E(s); ok && obs == expNum(num.StringToNumber(alt)) {
+					continue
+				}
+				sub := key + "#" + form.name + rep.tag
+				if !wanted(r, sub) {
+					continue
+				}
+				aux := textAux(form.name, s)
+				aux["rep"] = rep.tag
+				report(r, engine.Mismatch{Key: sub, Input: fmt.Sprintf(form.render, renderArg(s, rep)), Expected: exp, Observed: obs, Aux: aux})
+			}
+		}
+	}
+	for _, units := range surrogateCases {
+		key := unitsKey(units)
+		n++
+		if !mine(r, key) {
+			continue
+		}
+		s := string(utf16.Decode(units))
+		v := num.StringToNumber(s)
+		one(key, s, []strRep{rep16(r, c, units)}, len(toNumberForms), expNum(v), v)
+	}
 	forStrings(r.Thorough(), maxLen(r, 5, 6), func(key, s string) {
 		n++
 		if !mine(r, key) || st.stop() {
@@ -51,35 +181,21 @@ func runToNumber(r *engine.Run) {
 		}
 		v := num.StringToNumber(s)
 		exp := expNum(v)
-		r.Begin(key)
-		v1, e1 := c.call("__number", s)
-		v2, e2 := c.call("__plus", s)
-		r.End()
-		for i, form := range []string{"Number", "+"} {
-			obs := numObs(v1, e1)
-			if i == 1 {
-				obs = numObs(v2, e2)
-			}
-			r.Eval(!math.IsNaN(v))
-			r.Outcome(obs)
-			if obs == exp {
-				continue
-			}
-			if alt, ok := alt180E(s); ok && obs == expNum(num.StringToNumber(alt)) {
-				continue
-			}
-			sub := key + "#" + form
-			if !wanted(r, sub) {
-				continue
-			}
-			report(r, engine.Mismatch{Key: sub, Input: form + "(" + ox.JSLit(s) + ")", Expected: exp, Observed: obs, Aux: textAux(form, s)})
+		w16 := want16(key, s, lim16)
+		forms := 2 // the long tail: Number(s) and +s on the Go-string representation
+		if w16 {
+			forms = len(toNumberForms)
 		}
+		one(key, s, reps(r, c, s, w16), forms, exp, v)
 		if r.WantSample() && n%97 == 0 {
+			v1, e1 := c.call("__number", s)
 			r.Sample(fmt.Sprintf("Number(%s) => %s", ox.JSLit(s), numObs(v1, e1)))
 		}
 	})
 	r.Bound("strings", fmt.Sprint(n))
 	r.Bound("alphabet16_max_length", fmt.Sprint(maxLen(r, 5, 6)))
+	r.Bound("representations", fmt.Sprintf("Go string; UTF-16 backed (String.fromCharCode) for every string except alphabet strings longer than %d; %d lone-surrogate unit sequences", lim16, len(surrogateCases)))
+	r.Bound("entry_points", "Number(s) +s s-0 s*1")
 }
 
 func runParseFloat(r *engine.Run) {
@@ -90,31 +206,54 @@ func runParseFloat(r *engine.Run) {
 	}
 	st := &stopper{r: r}
 	n := 0
+	lim16 := maxLen(r, 4, 5)
+	one := func(key, s string, rl []strRep) {
+		v := num.ParseFloat(s)
+		exp := expNum(v)
+		for _, rep := range rl {
+			obs := rep.err
+			if obs == "" {
+				r.Begin(key)
+				v1, e1 := c.call("__parseFloat", rep.val)
+				r.End()
+				obs = numObs(v1, e1)
+			}
+			r.Eval(!math.IsNaN(v))
+			r.Outcome(obs)
+			if alt, ok := alt180E(s); ok && obs == expNum(num.ParseFloat(alt)) {
+				obs = exp
+			}
+			sub := key
+			if rep.tag != "" {
+				sub = key + "#" + rep.tag
+			}
+			if obs != exp && wanted(r, sub) {
+				aux := textAux("parseFloat", s)
+				aux["rep"] = rep.tag
+				report(r, engine.Mismatch{Key: sub, Input: "parseFloat(" + renderArg(s, rep) + ")", Expected: exp, Observed: obs, Aux: aux})
+			}
+			if r.WantSample() && n%89 == 0 {
+				r.Sample(fmt.Sprintf("parseFloat(%s) => %s", renderArg(s, rep), obs))
+			}
+		}
+	}
+	for _, units := range surrogateCases {
+		key := unitsKey(units)
+		n++
+		if mine(r, key) {
+			one(key, string(utf16.Decode(units)), []strRep{rep16(r, c, units)})
+		}
+	}
 	forStrings(r.Thorough(), maxLen(r, 5, 6), func(key, s string) {
 		n++
 		if !mine(r, key) || st.stop() {
 			return
 		}
-		v := num.ParseFloat(s)
-		exp := expNum(v)
-		r.Begin(key)
-		v1, e1 := c.call("__parseFloat", s)
-		r.End()
-		obs := numObs(v1, e1)
-		r.Eval(!math.IsNaN(v))
-		r.Outcome(obs)
-		if alt, ok := alt180E(s); ok && obs == expNum(num.ParseFloat(alt)) {
-			obs = exp
-		}
-		if obs != exp {
-			report(r, engine.Mismatch{Key: key, Input: "parseFloat(" + ox.JSLit(s) + ")", Expected: exp, Observed: obs, Aux: textAux("parseFloat", s)})
-		}
-		if r.WantSample() && n%89 == 0 {
-			r.Sample(fmt.Sprintf("parseFloat(%s) => %s", ox.JSLit(s), obs))
-		}
+		one(key, s, reps(r, c, s, want16(key, s, lim16)))
 	})
 	r.Bound("strings", fmt.Sprint(n))
 	r.Bound("alphabet16_max_length", fmt.Sprint(maxLen(r, 5, 6)))
+	r.Bound("representations", fmt.Sprintf("Go string; UTF-16 backed (String.fromCharCode) for every string except alphabet strings longer than %d; %d lone-surrogate unit sequences", lim16, len(surrogateCases)))
 }
 
 // radix arguments applied to every string
@@ -145,19 +284,22 @@ var radixArgs = []radixArg{
 	{js: "-4294967280", val: float64(-4294967280), num: -4294967280}, // ToInt32 = 16
 }
 
-func checkParseInt(r *engine.Run, c *caller, key, s string, ra radixArg) {
+func checkParseInt(r *engine.Run, c *caller, key, s string, rep strRep, ra radixArg) {
 	res := num.ParseInt(s, ra.num)
 	exp := expNum(res.Value)
-	r.Begin(key)
-	var v otto.Value
-	var e string
-	if ra.val == nil {
-		v, e = c.call("__parseInt1", s)
-	} else {
-		v, e = c.call("__parseInt", s, ra.val)
+	obs := rep.err
+	if obs == "" {
+		r.Begin(key)
+		var v otto.Value
+		var e string
+		if ra.val == nil {
+			v, e = c.call("__parseInt1", rep.val)
+		} else {
+			v, e = c.call("__parseInt", rep.val, ra.val)
+		}
+		r.End()
+		obs = numObs(v, e)
 	}
-	r.End()
-	obs := numObs(v, e)
 	r.Outcome(obs)
 	if res.Loose {
 		// implementation-dependent approximation allowed (15.1.2.2 step 13): not asserted
@@ -174,16 +316,17 @@ func checkParseInt(r *engine.Run, c *caller, key, s string, ra radixArg) {
 	if alt, ok := alt180E(s); ok && obs == expNum(num.ParseInt(alt, ra.num).Value) {
 		return
 	}
-	sub := key + "#" + ra.js
+	sub := key + "#" + ra.js + rep.tag
 	if !wanted(r, sub) {
 		return
 	}
 	aux := textAux("parseInt", s)
 	aux["radix"] = ra.js
 	aux["radixnum"] = hexKey(ra.num)
-	input := "parseInt(" + ox.JSLit(s) + ", " + ra.js + ")"
+	aux["rep"] = rep.tag
+	input := "parseInt(" + renderArg(s, rep) + ", " + ra.js + ")"
 	if ra.js == "" {
-		input = "parseInt(" + ox.JSLit(s) + ")"
+		input = "parseInt(" + renderArg(s, rep) + ")"
 	}
 	report(r, engine.Mismatch{Key: sub, Input: input, Expected: exp, Observed: obs, Aux: aux})
 }
@@ -203,9 +346,22 @@ func runParseInt(r *engine.Run) {
 		if !mine(r, key) {
 			continue
 		}
-		for rd := 0; rd <= 38; rd++ {
-			ra := radixArg{js: fmt.Sprint(rd), val: float64(rd), num: float64(rd)}
-			checkParseInt(r, c, key, s, ra)
+		for _, rep := range reps(r, c, s, true) {
+			for rd := 0; rd <= 38; rd++ {
+				ra := radixArg{js: fmt.Sprint(rd), val: float64(rd), num: float64(rd)}
+				checkParseInt(r, c, key, s, rep, ra)
+			}
+		}
+	}
+	for _, units := range surrogateCases {
+		key := unitsKey(units)
+		n++
+		if !mine(r, key) {
+			continue
+		}
+		rep := rep16(r, c, units)
+		for _, ra := range radixArgs {
+			checkParseInt(r, c, key, string(utf16.Decode(units)), rep, ra)
 		}
 	}
 	for _, s := range bigIntStrings() {
@@ -216,16 +372,19 @@ func runParseInt(r *engine.Run) {
 		}
 		for _, rd := range []int{2, 3, 4, 5, 7, 8, 9, 11, 12, 15, 17, 20, 31, 32, 33, 35} {
 			ra := radixArg{js: fmt.Sprint(rd), val: float64(rd), num: float64(rd)}
-			checkParseInt(r, c, key, s, ra)
+			checkParseInt(r, c, key, s, strRep{val: s}, ra)
 		}
 	}
+	lim16 := maxLen(r, 3, 4)
 	forStrings(r.Thorough(), maxLen(r, 4, 5), func(key, s string) {
 		n++
 		if !mine(r, key) || st.stop() {
 			return
 		}
-		for _, ra := range radixArgs {
-			checkParseInt(r, c, key, s, ra)
+		for _, rep := range reps(r, c, s, want16(key, s, lim16)) {
+			for _, ra := range radixArgs {
+				checkParseInt(r, c, key, s, rep, ra)
+			}
 		}
 		if r.WantSample() && n%83 == 0 {
 			v, e := c.call("__parseInt", s, float64(16))
@@ -242,6 +401,7 @@ func runParseInt(r *engine.Run) {
 		}
 	}
 	r.Bound("alphabet16_max_length", fmt.Sprint(maxLen(r, 4, 5)))
+	r.Bound("representations", fmt.Sprintf("Go string; UTF-16 backed (String.fromCharCode) for every string except alphabet strings longer than %d; %d lone-surrogate unit sequences", lim16, len(surrogateCases)))
 	r.Bound("radix_arguments", strings.Join(l, " ")+"; 0..38 on the sweep strings")
 }
 
